@@ -52,14 +52,14 @@ Qed.
 Definition d_1100 : dataset := with_limit ref_d0 (Some (VIC, 1100 # 1)).      (* attainable and binding: the two actions cost 1250 *)
 Definition d_5000 : dataset := with_limit ref_d0 (Some (VIC, 5000 # 1)).      (* admits everything *)
 
-(* with every action already in the target state the UNFIXED loop (Limits.rand_loop) consumes picks for ever ... *)
+(* with every action already in the target state the UNFIXED loop consumes picks for ever ... *)
 Lemma unfixed_loop_spins : forall d dir s a picks,
   (forall i, (i < nactions d)%nat -> st_active s i = dir) -> picks_ok d picks = true ->
-  rand_loop d dir picks (S a) true s = LOutOfPicks.
+  rand_loop_old d dir picks (S a) true s = LOutOfPicks.
 Proof.
   intros d dir s a picks Hall. induction picks as [|i ps IH]; intro Hp; [reflexivity|].
   simpl in Hp. apply andb_true_iff in Hp as [Hi Hps]. apply Nat.ltb_lt in Hi.
-  cbn [rand_loop negb]. rewrite (Hall i Hi), eqb_reflx. exact (IH Hps).
+  cbn [rand_loop_old negb]. rewrite (Hall i Hi), eqb_reflx. exact (IH Hps).
 Qed.
 
 (* ... the fixed one returns at once *)
